@@ -191,3 +191,34 @@ def soup_st(draw, max_lines=25):
     lines = draw(st.lists(soup_line_st(), min_size=1, max_size=max_lines))
     sep = draw(st.sampled_from(["\n", "\n", "\n", "\r\n"]))
     return {"text": sep.join(lines) + (sep if draw(st.booleans()) else "")}
+
+
+# ------------------------------------------------------------------ preprocessor story lines
+PP_EVENT_KINDS = {
+    "define-object": ["#define {N} 1", "#define {N} {n}_expanded + 2", "#define {N}", "#define {N} {M}"],
+    "define-function": ["#define {N}(a) ((a) + 1)", "#define {N}(a,b) a*b", "#define {N}( a , b ) (a)+(b)"],
+    "undef": ["#undef {N}"],
+    "use-object": ["  x = {N}", "  w = {N} + {N}", "  integer :: v_{N}"],
+    "use-function": ["  y = {N}(1)", "  z = {N}(p, q) + {N}", "  call s({N}, {N}(2))"],
+    "cond-open": ["#ifdef {N}", "#ifndef {N}", "#if {N} > 0", "#if defined({N}) && {N}"],
+    "cond-mid": ["#elif {N}", "#else", "#elif defined({N})"],
+    "cond-close": ["#endif"],
+    "code": ["  integer :: {n}", '#include "{n}.h"', "  end if", "contains"],
+}
+
+
+@st.composite
+def pp_story_st(draw, max_events=14):
+    """A sequence of preprocessor events, mostly about one macro name: definitions of both kinds, #undef, re-definition,
+    uses of either kind and conditionals, in any order (so also: use before definition, redefinition with the other
+    kind, a macro defined as another one, unbalanced conditionals)."""
+    n1, n2 = draw(st.sampled_from([("F", "G"), ("MAC", "OTHER"), ("N_", "N_X")]))
+    kinds = sorted(PP_EVENT_KINDS)
+    evs = draw(st.lists(st.tuples(st.sampled_from(kinds), st.integers(0, 3), st.integers(0, 3)), min_size=3, max_size=max_events))
+    lines = [draw(st.sampled_from(["program p", "module m", "subroutine s(x)", ""]))]
+    for kind, variant, other in evs:
+        a, b = (n2, n1) if other == 0 else (n1, n2)
+        tmpl = PP_EVENT_KINDS[kind][variant % len(PP_EVENT_KINDS[kind])]
+        lines.append(tmpl.replace("{N}", a).replace("{M}", b).replace("{n}", a.lower()))
+    lines.append(draw(st.sampled_from(["end", "end program p", "end module m", ""])))
+    return {"text": "\n".join(lines) + "\n"}
